@@ -195,7 +195,7 @@ func c10Run(p c10Params, ch vrt.Chooser, trace bool) (*world.World, *vrt.Exec, *
 		if sc.hold0 {
 			opts = append(opts, corebgp.WithHoldTime(0))
 		}
-		if err := w.Server.AddPeer(peerConfig(remIP, 65001, 65002), pl, opts...); err != nil {
+		if err := w.AddPeer(peerConfig(remIP, 65001, 65002), pl, opts...); err != nil {
 			panic("harness: " + err.Error())
 		}
 		if sc.second {
@@ -486,7 +486,9 @@ func c10Scenarios(th bool) []*Scn {
 }
 
 func c10Check(c *harness.Ctx) {
-	scns := withLegacy(c10Scenarios(c.Thorough()), legacyEvery(c.Thorough(), 4))
+	base := c10Scenarios(c.Thorough())
+	scns := withLegacy(base, legacyEvery(c.Thorough(), 4))
+	scns = append(scns, withHold0(base, legacyEvery(c.Thorough(), 5)*2)[len(base):]...)
 	c.Res.Extra["scenarios_total"] = float64(len(scns)) / float64(max(c.Of, 1))
 	for i, s := range scns {
 		if !c.Mine(i) {
